@@ -19,6 +19,7 @@ type layout struct {
 	epoch    int64
 	nodeBits uint8
 	lowest   bool
+	order    int // which permutation of the Setup options establishes the layout
 }
 
 func layouts() []layout {
@@ -26,18 +27,24 @@ func layouts() []layout {
 	for _, ep := range []int64{1609430400000, 946684800000} {
 		for _, nb := range []uint8{8, 9, 10} {
 			for _, lo := range []bool{false, true} {
-				o = append(o, layout{ep, nb, lo})
+				o = append(o, layout{ep, nb, lo, 0})
+				if lo && ep == 946684800000 {
+					o = append(o, layout{ep, nb, lo, 1}, layout{ep, nb, lo, 2}) // node-at-lowest given before / between the other options
+				}
 			}
 		}
 	}
 	// "any epoch": before 1970 with and without a millisecond fraction, 1970 itself, a fraction after 1970
 	for _, ep := range []int64{-1500, -86400123, -3600000, 0, 1609430400123} {
-		o = append(o, layout{ep, 10, false}, layout{ep, 8, true})
+		o = append(o, layout{ep, 10, false, 0}, layout{ep, 8, true, 3})
 	}
 	return o
 }
 
 func (l layout) String() string {
+	if l.order != 0 {
+		return fmt.Sprintf("epoch=%d/nodeBits=%d/nodeAtLowest=%v/option-order=%d", l.epoch, l.nodeBits, l.lowest, l.order)
+	}
 	return fmt.Sprintf("epoch=%d/nodeBits=%d/nodeAtLowest=%v", l.epoch, l.nodeBits, l.lowest)
 }
 
@@ -417,9 +424,38 @@ func nanoPart(r *ev.Run, depth int) ev.Part {
 		Bound: fmt.Sprintf("all ts histories of length %d over 5 deltas, 4 start values, GenIDByTS and GenID (virtual clock), locked and lock-free generator", depth), WallS: time.Since(t0).Seconds()}
 }
 
+// configure establishes the layout through the PUBLIC Setup call of a fresh process, the options given
+// in the order chosen by the layout (the same layout must result whatever the order), and verifies
+// what was established through the read-only hook.
+func configure(r *ev.Run, l layout) func() {
+	opts := []snowflake.Option{snowflake.UseEpoch(time.UnixMilli(l.epoch)), snowflake.UseNodeMode(snowflake.NodeBitsMode(l.nodeBits))}
+	if l.lowest {
+		opts = append(opts, snowflake.NodeAtLowest())
+	}
+	perms := [][]int{{0, 1, 2}, {2, 1, 0}, {1, 2, 0}, {2, 0, 1}}
+	var ordered []snowflake.Option
+	for _, i := range perms[l.order%len(perms)] {
+		if i < len(opts) {
+			ordered = append(ordered, opts[i])
+		}
+	}
+	if l.order >= 2 {
+		// two Setup calls instead of one
+		snowflake.Setup(ordered[:1]...)
+		snowflake.Setup(ordered[1:]...)
+	} else {
+		snowflake.Setup(ordered...)
+	}
+	if e, b, lo := snowflake.VerifConfig(); e != l.epoch || b != l.nodeBits || lo != l.lowest {
+		r.Violate(ev.Violation{Signature: "setup: the options do not establish the requested layout", Scenario: "setup/" + l.String(),
+			What: fmt.Sprintf("Setup for %s established epoch=%d nodeBits=%d nodeAtLowest=%v", l.String(), e, b, lo)})
+	}
+	return func() {}
+}
+
 func main() {
 	r := ev.Start("C06")
-	r.Rule("burst histories (letters = 4095/4096/4097 calls at one clock reading, single calls, restarts: second and third step wrap, wrap after restart, wrap while the clock is behind); every history of clock readings (relative to the generator's current millisecond: -1000,-1,0,+1,+2,+100000; restart with the last id) up to the stated length on the real HardNode from seeded start states at the step wrap (step 0,1,4094,4095); MonoNode under a virtual non-decreasing clock incl. stalled readings inside its spin loop and a 4094-call frozen-clock warm-up; UnixNanoID over ts histories; for every layout (node bits 8/9/10 x node-at-lowest x two epochs, plus five more epochs - before 1970 with and without a millisecond fraction, 1970, a fraction after 1970 - on two layouts) in its own process; distinct = (delta, carry/reset/bump) classes")
+	r.Rule("burst histories (letters = 4095/4096/4097 calls at one clock reading, single calls, restarts: second and third step wrap, wrap after restart, wrap while the clock is behind); every history of clock readings (relative to the generator's current millisecond: -1000,-1,0,+1,+2,+100000; restart with the last id) up to the stated length on the real HardNode from seeded start states at the step wrap (step 0,1,4094,4095); MonoNode under a virtual non-decreasing clock incl. stalled readings inside its spin loop and a 4094-call frozen-clock warm-up; UnixNanoID over ts histories; for every layout (node bits 8/9/10 x node-at-lowest x two epochs, plus five more epochs - before 1970 with and without a millisecond fraction, 1970, a fraction after 1970 - on two layouts) in its own process, the layout established through the public Setup call with the options in different orders and split over one or two calls; distinct = (delta, carry/reset/bump) classes")
 	r.Assume("clock readings stay inside the timestamp width", "MonoNode is only given non-decreasing clocks (it reads Go's monotonic clock)")
 	ls := layouts()
 	if r.Shard != "" {
@@ -427,7 +463,7 @@ func main() {
 		fmt.Sscanf(r.Shard, "%d", &k)
 		if k < len(ls) {
 			l := ls[k]
-			restore := snowflake.VerifSetConfig(l.epoch, l.nodeBits, l.lowest)
+			restore := configure(r, l)
 			r.AddPart(hardNode(r, l, r.Pick(5, 7)))
 			r.AddPart(hardNodeBursts(r, l, r.Pick(4, 5)))
 			r.AddPart(monoNode(r, l, r.Pick(4, 6)))
